@@ -6,6 +6,8 @@ from the real implementation.  Floats travel as 16-hex-digit bit patterns; NaN p
 import Micm.Model.Builder
 import Micm.Model.Dense
 import Micm.Model.RateConst
+import Micm.Model.FlatKernels
+import Micm.Model.History
 namespace Micm.Driver
 open Micm
 
@@ -494,6 +496,23 @@ def histCase : P String := do
       | _ => outs := outs ++ ["bad-op"]
     pure ("hist " ++ " | ".intercalate outs)
 
+/-- flat-storage forcing (the whole `AsVector()`, padding lanes included) -/
+def forcingFlatCase : P String := do
+  let L ← nat; let ncell ← nat; let ns ← nat
+  let perm ← nats ns
+  let mech ← mechP
+  let nrx := mech.length
+  let k ← flts (ncell * nrx); let y ← flts (ncell * ns); let f0 ← flts (ncell * ns)
+  match ProcessSet.build mech (nameMapOf perm) with
+  | .error e => pure (errStr e.toErr)
+  | .ok t =>
+    let toFlat := fun (cols : Nat) (vals : List Float) =>
+      let s : DenseShape := ⟨ncell, cols, L⟩
+      ((List.range ncell).flatMap fun c => (List.range cols).map fun j => (s.addr c j, vals.getD (c * cols + j) 0.0)).foldl
+        (fun a p => wr a p.1 p.2) (Array.replicate s.size 0.0)
+    let out := t.addForcingFlat L ncell nrx ns (toFlat nrx k) (toFlat ns y) (toFlat ns f0)
+    pure s!"forcingflat f={showFs out.toList}"
+
 def runLine2 (line : String) : String :=
   let toks := (line.trimAscii.toString.splitOn " ").filter (· != "")
   match toks with
@@ -504,6 +523,7 @@ def runLine2 (line : String) : String :=
     | "markowitz" => (markowitzCase.run rest).1
     | "rates" => (ratesCase.run rest).1
     | "hist" => (histCase.run rest).1
+    | "forcingflat" => (forcingFlatCase.run rest).1
     | _ => runLine line
 
 end Micm.Driver
